@@ -36,7 +36,9 @@ type tnode struct {
 }
 
 var treeNamePool = []string{"a", "a.txt", "a-b", "a b", "A", "B", "a0", "ab", "b", "Z", "z", "é", "x!", "x", "x.d", "0", "00", "_", "~",
-	".hidden", ".dotdir", ".ds", "a.", "a..b", "Mix.Jpg", "read me.txt", "ÿ", "aé", "b.zip", "c.sit", "d.pdf", "x.d.e"}
+	".hidden", ".dotdir", ".ds", "a.", "a..b", "Mix.Jpg", "read me.txt", "ÿ", "aé", "b.zip", "c.sit", "d.pdf", "x.d.e",
+	// characters that mean something to fmt verbs, shells, quoting and path code — a name is only ever a name
+	"50% off", "%s", "%!", "100%", "%d items", "a%20b", "%%", "%v%v", "it's", `say "hi"`, `back\slash`, "-rf", "--", " lead", "trail ", "a\tb", "$HOME", "*", "?", "[x]", "{a,b}", "Ünïcode ñ", "€uro", "ƒ"}
 
 func genTreeName(r *RNG, used map[string]bool, allowDot bool) string {
 	for {
@@ -174,6 +176,34 @@ func addAliases(c *Case, ts *TS, cc *hotline.ClientConn, tree *tnode, parent str
 		}
 	}
 	rec(tree, parent, pathItems)
+	relRoot := c10RelRoot(ts)
+	// linkString: the absolute path, or the relative path from the folder that will hold the link (as `ln -s` stores it)
+	linkString := func(linkDir, target string) string {
+		if r.Chance(50) {
+			if rel, err := filepath.Rel(linkDir, target); err == nil {
+				if !strings.HasPrefix(rel, "..") && r.Chance(30) {
+					rel = "./" + rel
+				}
+				c.Dist("folder-download/alias-link-string=relative")
+				return rel
+			}
+		}
+		c.Dist("folder-download/alias-link-string=absolute")
+		return target
+	}
+	// makeAlias runs the real Make Alias transaction, 30% of the time under a RELATIVE file root (the server's working
+	// directory is not the tree: the link string is then relative to the working directory)
+	makeAlias := func(id uint32, name string, from, to [][]byte) bool {
+		saved := ts.Srv.Config.FileRoot
+		if relRoot != "" && r.Chance(30) {
+			ts.Srv.Config.FileRoot = relRoot
+			c.Dist("folder-download/alias-by-handler-under-relative-root")
+		}
+		res, _, pan := ts.Call(cc, mkTran(hotline.TranMakeFileAlias, id, fld(hotline.FieldFileName, []byte(name)),
+			fld(hotline.FieldFilePath, encodePathItems(from)), fld(hotline.FieldFileNewPath, encodePathItems(to))))
+		ts.Srv.Config.FileRoot = saved
+		return pan == nil && len(res) == 1 && res[0].ErrorCode == [4]byte{}
+	}
 	outside := &diskFile{Dir: filepath.Join(ts.Root, "outside-targets"), Name: fmt.Sprintf("o%d.dat", r.Intn(1000)), Data: genData(r, r.Intn(3000)), ModTime: randModTime(r)}
 	outside.write()
 	n := 1 + r.Intn(4)
@@ -204,24 +234,21 @@ func addAliases(c *Case, ts *TS, cc *hotline.ClientConn, tree *tnode, parent str
 		}
 		lp := filepath.Join(d.dir, name)
 		if viaHandler {
-			res, _, pan := ts.Call(cc, mkTran(hotline.TranMakeFileAlias, 9000+uint32(i), fld(hotline.FieldFileName, []byte(name)),
-				fld(hotline.FieldFilePath, encodePathItems(tf.comps)), fld(hotline.FieldFileNewPath, encodePathItems(d.comps))))
-			if pan != nil || len(res) != 1 || res[0].ErrorCode != [4]byte{} {
+			if !makeAlias(9000+uint32(i), name, tf.comps, d.comps) {
 				continue
 			}
 			c.Dist("folder-download/alias-by-handler")
 		} else {
-			if os.Symlink(target, lp) != nil {
+			if os.Symlink(linkString(d.dir, target), lp) != nil {
 				continue
 			}
 			c.Dist("folder-download/alias-by-fixture")
 		}
-		if fi, err := os.Lstat(lp); err != nil || fi.Mode()&os.ModeSymlink == 0 {
-			continue
+		_, _ = tdata, tmod
+		if an := c10AliasNode(c, d.dir, name); an != nil {
+			d.n.kids = append(d.n.kids, an)
+			tree.hasLinks = true
 		}
-		d.n.kids = append(d.n.kids, &tnode{name: name, linkTo: target,
-			file: &diskFile{Dir: d.dir, Name: name, ReqName: []byte(name), Data: tdata, ModTime: tmod}})
-		tree.hasLinks = true
 	}
 	// DANGLING aliases: made by the real handler or the fixture, the target then removed — announced and sent as a file
 	// with an empty data fork (zero dates, default type and creator: nothing can be stat'ed), and the walk goes on
@@ -248,28 +275,21 @@ func addAliases(c *Case, ts *TS, cc *hotline.ClientConn, tree *tnode, parent str
 		}
 		lp := filepath.Join(d.dir, name)
 		if ascii && r.Chance(60) {
-			res, _, pan := ts.Call(cc, mkTran(hotline.TranMakeFileAlias, 9200+uint32(i), fld(hotline.FieldFileName, []byte(name)),
-				fld(hotline.FieldFilePath, encodePathItems([][]byte{[]byte("outside-targets"), []byte(filepath.Base(gdir))})), fld(hotline.FieldFileNewPath, encodePathItems(d.comps))))
-			if pan != nil || len(res) != 1 || res[0].ErrorCode != [4]byte{} {
+			if !makeAlias(9200+uint32(i), name, [][]byte{[]byte("outside-targets"), []byte(filepath.Base(gdir))}, d.comps) {
 				continue
 			}
 			c.Dist("folder-download/dangling-alias-by-handler")
 		} else {
-			if os.Symlink(r.pickStr(filepath.Join(gdir, name), "no/such/relative/target"), lp) != nil {
+			if os.Symlink(r.pickStr(filepath.Join(gdir, name), "no/such/relative/target", linkString(d.dir, filepath.Join(gdir, name))), lp) != nil {
 				continue
 			}
 			c.Dist("folder-download/dangling-alias-by-fixture")
 		}
 		os.RemoveAll(gdir)
-		if fi, err := os.Lstat(lp); err != nil || fi.Mode()&os.ModeSymlink == 0 {
-			continue
+		if an := c10AliasNode(c, d.dir, name); an != nil {
+			d.n.kids = append(d.n.kids, an)
+			tree.hasLinks = true
 		}
-		if _, err := os.Stat(lp); err == nil {
-			continue // not dangling after all
-		}
-		d.n.kids = append(d.n.kids, &tnode{name: name, linkTo: "(gone)",
-			file: &diskFile{Dir: d.dir, Name: name, ReqName: []byte(name), Data: []byte{}, Dangling: true}})
-		tree.hasLinks = true
 	}
 	// aliases of FOLDERS: one folder item without children, whatever the target holds (the walk does not descend)
 	outDir := filepath.Join(ts.Root, "outside-targets", fmt.Sprintf("dir%d", r.Intn(1000)))
@@ -301,26 +321,119 @@ func addAliases(c *Case, ts *TS, cc *hotline.ClientConn, tree *tnode, parent str
 		if used[name] || len(name) > 200 {
 			continue
 		}
-		lp := filepath.Join(d.dir, name)
 		if viaHandler {
-			res, _, pan := ts.Call(cc, mkTran(hotline.TranMakeFileAlias, 9100+uint32(i), fld(hotline.FieldFileName, []byte(name)),
-				fld(hotline.FieldFilePath, encodePathItems(parentComps)), fld(hotline.FieldFileNewPath, encodePathItems(d.comps))))
-			if pan != nil || len(res) != 1 || res[0].ErrorCode != [4]byte{} {
+			if !makeAlias(9100+uint32(i), name, parentComps, d.comps) {
 				continue
 			}
 			c.Dist("folder-download/folder-alias-by-handler")
 		} else {
-			if os.Symlink(target, lp) != nil {
+			if os.Symlink(linkString(d.dir, target), filepath.Join(d.dir, name)) != nil {
 				continue
 			}
 			c.Dist("folder-download/folder-alias-by-fixture")
 		}
-		if fi, err := os.Lstat(lp); err != nil || fi.Mode()&os.ModeSymlink == 0 {
-			continue
+		if an := c10AliasNode(c, d.dir, name); an != nil {
+			d.n.kids = append(d.n.kids, an)
+			tree.hasLinks = true
 		}
-		d.n.kids = append(d.n.kids, &tnode{name: name, isDir: true, linkTo: target})
-		tree.hasLinks = true
 	}
+}
+
+// c10RelRoot: the file root as a path relative to the working directory of this process ("" when there is none).
+func c10RelRoot(ts *TS) string {
+	wd, err := os.Getwd()
+	if err != nil {
+		return ""
+	}
+	rr, err := filepath.Rel(wd, ts.Root)
+	if err != nil || filepath.IsAbs(rr) {
+		return ""
+	}
+	if fi, err := os.Stat(rr); err != nil || !fi.IsDir() {
+		return ""
+	}
+	return rr
+}
+
+// c10AliasNode describes the alias dir/name for the expectation.  WHERE it leads is decided by the MODEL (`resolveAt`:
+// an absolute link string from the root, a relative one from the folder that holds the link — never from the working
+// directory); WHAT exists there is read from the disk without following anything.  A regular file → a file item with
+// that file's bytes and date under the alias's name; a folder → one folder item; nothing → the empty file.  The kernel's
+// own resolution of the link is compared with the model's (correspondence `alias-resolution`).
+func c10AliasNode(c *Case, dir, name string) *tnode {
+	lp := filepath.Join(dir, name)
+	ls, err := os.Readlink(lp)
+	if err != nil {
+		return nil
+	}
+	kind := "r"
+	if filepath.IsAbs(ls) {
+		kind = "a"
+	}
+	ans := c.O.Ask(fmt.Sprintf("aliasres %s %s %s", hx([]byte(dir)), kind, hx([]byte(ls))))
+	mp, ok := unhexC10(ans)
+	if !ok {
+		c.Note("oracle", ans)
+		c.Disagree("oracle-aliasres", "the oracle could not resolve a link string")
+		os.Remove(lp)
+		return nil
+	}
+	modelPath := "/" + string(mp)
+	if real, err := filepath.EvalSymlinks(lp); err == nil {
+		if d2, err := filepath.EvalSymlinks(dir); err == nil && d2 == dir {
+			c.Note("alias", lp)
+			c.Note("link_string", ls)
+			c.Corr("alias-resolution", real, modelPath, false)
+		}
+	}
+	li, err := os.Lstat(modelPath)
+	switch {
+	case err != nil:
+		c.Dist("folder-download/alias-leads-to=nothing")
+		return &tnode{name: name, linkTo: ls, file: &diskFile{Dir: dir, Name: name, ReqName: []byte(name), Data: []byte{}, Dangling: true}}
+	case li.IsDir():
+		c.Dist("folder-download/alias-leads-to=folder")
+		return &tnode{name: name, isDir: true, linkTo: ls}
+	case li.Mode().IsRegular():
+		data, err := os.ReadFile(modelPath)
+		if err != nil {
+			os.Remove(lp)
+			return nil
+		}
+		c.Dist("folder-download/alias-leads-to=file")
+		return &tnode{name: name, linkTo: ls, file: &diskFile{Dir: dir, Name: name, ReqName: []byte(name), Data: data, ModTime: li.ModTime()}}
+	}
+	os.Remove(lp) // a chain of aliases: not generated
+	return nil
+}
+
+func unhexC10(s string) ([]byte, bool) {
+	s = strings.TrimSpace(s)
+	if s == "-" || s == "" {
+		return nil, s == "-"
+	}
+	if len(s)%2 != 0 {
+		return nil, false
+	}
+	out := make([]byte, len(s)/2)
+	for i := range out {
+		var v byte
+		for j := 0; j < 2; j++ {
+			ch := s[2*i+j]
+			switch {
+			case ch >= '0' && ch <= '9':
+				v = v<<4 | (ch - '0')
+			case ch >= 'a' && ch <= 'f':
+				v = v<<4 | (ch - 'a' + 10)
+			case ch >= 'A' && ch <= 'F':
+				v = v<<4 | (ch - 'A' + 10)
+			default:
+				return nil, false
+			}
+		}
+		out[i] = v
+	}
+	return out, true
 }
 
 // writeTree stores the tree below parentDir.
@@ -550,6 +663,11 @@ func runC10Download(c *Case) {
 		ts.Close()
 	}()
 	cc, _ := ts.DirectClient("admin", []byte("admin"), "127.0.0.1:1234")
+	if rr := c10RelRoot(ts); rr != "" && r.Chance(25) {
+		// the whole case under a RELATIVE file root (as `-config config` gives): the working directory is not the tree
+		ts.Srv.Config.FileRoot = rr
+		c.Dist("folder-download/relative-file-root")
+	}
 	id := uint32(100)
 	maxSize := 100 * 1024
 	if c.X.Tier == "thorough" {
@@ -1174,7 +1292,7 @@ func (e *c10Env) uploadSession(folder string, items []*upItemSpec, cutItem, cutA
 
 func runC10Upload(c *Case) {
 	r := c.R
-	ts, err := newTS(TSOpt{Direct: true, PreserveForks: r.Chance(30)})
+	ts, err := newTS(TSOpt{Direct: true, PreserveForks: r.Bool()})
 	if err != nil {
 		return
 	}
@@ -1186,6 +1304,7 @@ func runC10Upload(c *Case) {
 		ts.Close()
 	}()
 	cc, _ := ts.DirectClient("admin", []byte("admin"), "127.0.0.1:1234")
+	c.Dist(fmt.Sprintf("folder-upload/preserve-forks=%v", ts.Srv.Config.PreserveResourceForks))
 	e := &c10Env{c: c, ts: ts, set: set, cc: cc, id: 500}
 	maxSize := 60 * 1024
 	for ti := 0; ti < 4; ti++ {
@@ -1308,7 +1427,7 @@ func runC10Upload(c *Case) {
 
 func runC10RoundTrip(c *Case) {
 	r := c.R
-	ts, err := newTS(TSOpt{Direct: true, PreserveForks: false})
+	ts, err := newTS(TSOpt{Direct: true, PreserveForks: r.Bool()})
 	if err != nil {
 		return
 	}
@@ -1349,6 +1468,19 @@ func runC10RoundTrip(c *Case) {
 					t.file.ModTime = st.ModTime()
 				}
 				t.file.Info, t.file.HasRsrc, t.file.Rsrc, t.file.Dir = nil, false, nil, dir
+				if ts.Srv.Config.PreserveResourceForks {
+					// the upload stored the client's information fork and an (empty or sent) resource fork next to the file
+					for _, it := range items {
+						if !it.isDir && filepath.Join(ts.Root, folder, filepath.FromSlash(it.key)) == p {
+							i := it.info
+							t.file.Info, t.file.InfoRaw = &i, i.encode()
+							t.file.HasRsrc, t.file.Rsrc = true, []byte{}
+							if it.fc == 3 {
+								t.file.Rsrc = it.rsrc
+							}
+						}
+					}
+				}
 				return
 			}
 			for _, k := range t.kids {
@@ -1635,7 +1767,7 @@ func runC10Regressions(c *Case) {
 
 func init() {
 	props["C10"] = func(x *Ctx) {
-		x.rule = "folder-download: 4 trees per case (depth ≤ 4, fan-out ≤ 5, ≤ 60 entries — 30% of the cases one tree with fan-out ≤ 7 and up to 150 entries —, empty folders, dot-files and dot-folders with visible entries below them, names chosen to separate per-directory byte order from whole-path order, file sizes 0..100 KiB (thorough 200 KiB), optional .info_/.rsrc_ side files, requested at the root or one level down; half of the trees additionally hold 1..4 aliases of files — made by the real Make Alias transaction or placed by the fixture, visible and dot-named, pointing inside or outside the tree — which must be sent as files carrying the target's bytes — and 0..2 aliases of FOLDERS (inside or outside the tree, made by the handler or the fixture), each of which must be announced as one folder item without children, and 0..2 DANGLING aliases (target removed after Make Alias, or fixture links to nothing), each of which must be sent as a file with an empty data fork while the walk goes on), each downloaded under 3 action scripts (all send; mixed send/resume/next; resume-heavy or all next; resume offsets 0,1,size-1,size,random; 12% of the runs the client disconnects at an item header or after a file). folder-upload: 4 client trees per case streamed in client order into an empty, partly or largely pre-populated folder (existing folders, complete files with equal, other or EMPTY contents, partial files holding a prefix; 40% of the uncut uploads are streamed a second time), 45% cut inside a file item (before the size, inside the header, at header end ±1, mid data, last byte) followed by a second complete session. folder-roundtrip: upload into an empty folder, then download with all-send. long-names: folders named with 252, 253, 254 and 255 bytes (nested, with files named with up to 244 bytes = NAME_MAX minus the .incomplete suffix) uploaded and downloaded again, and stored files named with 252..255 bytes downloaded. non-trivial = a file item whose bytes were transferred (download) / a session that streamed at least one item (upload); distinct = distinct (path, size, action, fork combination) resp. (items, pre-population, cut)"
+		x.rule = "folder-download: 4 trees per case (depth ≤ 4, fan-out ≤ 5, ≤ 60 entries — 30% of the cases one tree with fan-out ≤ 7 and up to 150 entries —, empty folders, dot-files and dot-folders with visible entries below them, names chosen to separate per-directory byte order from whole-path order, file sizes 0..100 KiB (thorough 200 KiB), optional .info_/.rsrc_ side files, requested at the root or one level down; half of the trees additionally hold 1..4 aliases of files — made by the real Make Alias transaction or placed by the fixture, visible and dot-named, pointing inside or outside the tree — which must be sent as files carrying the target's bytes — and 0..2 aliases of FOLDERS (inside or outside the tree, made by the handler or the fixture), each of which must be announced as one folder item without children, and 0..2 DANGLING aliases (target removed after Make Alias, or fixture links to nothing), each of which must be sent as a file with an empty data fork while the walk goes on), each downloaded under 3 action scripts (all send; mixed send/resume/next; resume-heavy or all next; resume offsets 0,1,size-1,size,random; 12% of the runs the client disconnects at an item header or after a file). folder-upload: 4 client trees per case streamed in client order into an empty, partly or largely pre-populated folder (existing folders, complete files with equal, other or EMPTY contents, partial files holding a prefix; 40% of the uncut uploads are streamed a second time), 45% cut inside a file item (before the size, inside the header, at header end ±1, mid data, last byte) followed by a second complete session. folder-roundtrip: upload into an empty folder, then download with all-send. long-names: folders named with 252, 253, 254 and 255 bytes (nested, with files named with up to 244 bytes = NAME_MAX minus the .incomplete suffix) uploaded and downloaded again, and stored files named with 252..255 bytes downloaded. non-trivial = a file item whose bytes were transferred (download) / a session that streamed at least one item (upload); distinct = distinct (path, size, action, fork combination) resp. (items, pre-population, cut). Wave d: a third of the pool names carry characters that mean something to fmt verbs, shells, quoting or path code ('50% off', '%s', '%!', '100%', '%%', quotes, backslash, leading '-', leading/trailing space, tab, '$HOME', '*', '[x]', Mac-Roman high characters) in folder and file names of every family, under both values of PreserveResourceForks (download 50%, upload 50%, round trip 50%); fixture aliases carry an absolute or (half of the time) a RELATIVE link string computed from the folder holding the link, Make Alias runs 30% of the time under a file root RELATIVE to the harness's working directory (which is not the tree) and 25% of the download cases run entirely under that relative root; where an alias leads is computed by the Lean model (resolveAt) and compared with the kernel's resolution, what is there is read from the disk"
 		x.assume = []string{
 			"root folder names are visible (no leading dot); names ending in .incomplete or starting with .info_/.rsrc_ are not generated (the on-disk naming scheme cannot tell them from partial/side files)",
 			"resume of a file with a stored resource fork, and a resource fork without an information fork, are compared with the model as coded (DESIGN §7 C08 'not covered': resume of the resource fork); the size-prefix clause is judged directly only without a stored resource fork or for 'send'",
